@@ -21,6 +21,25 @@ fn flat_ontology(ids: &BTreeSet<u32>) -> Ontology {
     b.calculate_information_content().expect("ic").build_minimal()
 }
 
+/// the same terms with random is_a links (every term but the first gets 0-2 parents among the
+/// earlier ones): input sets and their unions then contain terms together with their ancestors
+fn tree_ontology(ids: &BTreeSet<u32>, rng: &mut Rng) -> Ontology {
+    let mut b = Builder::new();
+    for id in ids {
+        b.new_term(&format!("t{id}"), *id);
+    }
+    let mut b = b.terms_complete();
+    let v: Vec<u32> = ids.iter().copied().collect();
+    for (i, c) in v.iter().enumerate().skip(1) {
+        for _ in 0..rng.range(0, 3) {
+            let p = v[rng.below(i as u64) as usize];
+            b.add_parent(p, *c).expect("both terms exist");
+        }
+    }
+    let b = b.connect_all_terms();
+    b.calculate_information_content().expect("ic").build_minimal()
+}
+
 fn set_ids(s: &HpoSet) -> Vec<u32> {
     s.iter().map(|t| t.id().as_u32()).collect()
 }
@@ -64,7 +83,8 @@ pub fn cases(rng: &mut Rng, count: usize, tier: &str) -> Vec<Case> {
         let nterms = rng.range(nsets as u64, nsets as u64 * 2 + 2) as usize;
         let universe: Vec<u32> = crate::gen::gen_ids(rng, nterms, true, &[]);
         let ids: BTreeSet<u32> = universe.iter().copied().collect();
-        let ont = flat_ontology(&ids);
+        let hier = rng.chance(1, 2);
+        let ont = if hier { tree_ontology(&ids, rng) } else { flat_ontology(&ids) };
         // symmetric table of pairwise term distances, all values distinct (no ties among the inputs)
         let mut used: BTreeSet<u32> = BTreeSet::new();
         let mut table: HashMap<(u32, u32), f32> = HashMap::new();
